@@ -336,6 +336,10 @@ pub enum Line {
     Insert(String, i64),
     Thread(Box<Line>),
     Catch(Box<Line>),
+    /// read a file / list a directory through the second cache: for the cache under test this is
+    /// a constant (the model sees `val k`), it records nothing
+    OtherFile(String),
+    OtherDir(String),
     Fail,
     Panic,
 }
@@ -362,6 +366,8 @@ impl Line {
             Line::Insert(id, k) => format!("insert {} {}", q(id), k),
             Line::Thread(l) => format!("thread {}", l.text()),
             Line::Catch(l) => format!("catch {}", l.text()),
+            Line::OtherFile(id) => format!("orf {} x", q(id)),
+            Line::OtherDir(id) => format!("ord {}", q(id)),
             Line::Fail => "fail".into(),
             Line::Panic => "panic".into(),
         }
@@ -379,6 +385,8 @@ impl Line {
             Line::Insert(id, k) => format!("(LInsert {} {})", cstr(id), zlit(*k)),
             Line::Thread(l) => format!("(LThread {})", l.coq()),
             Line::Catch(l) => format!("(LCatch {})", l.coq()),
+            Line::OtherFile(id) => format!("(LVal {})", zlit(other_file_len(id).unwrap() as i64)),
+            Line::OtherDir(id) => format!("(LVal {})", zlit(other_dir_count(id).unwrap() as i64)),
             Line::Fail => "LFail".into(),
             Line::Panic => "LPanic".into(),
         }
@@ -795,7 +803,9 @@ pub const DIR_IDS: &[&str] = &["", "d", "d.e", "q"];
 pub const NODE_IDS: &[&str] = &["n0", "n1", "n2", "n3"];
 
 fn gen_int_content(rng: &mut Rng) -> Vec<u8> {
-    match rng.below(24) {
+    match rng.below(26) {
+        24 => b"!nf".to_vec(),
+        25 => b"!id 7".to_vec(),
         0 => b"zz".to_vec(),
         1 => b"".to_vec(),
         2 => b"1.5".to_vec(),
@@ -851,7 +861,14 @@ fn exts_of(t: Ty) -> &'static [&'static str] {
 fn gen_line(rng: &mut Rng, node_idx: usize, depth: u32, threads_ok: bool, spicy: bool) -> Line {
     let r = rng.below(if spicy { 34 } else { 29 });
     match r {
-        0..=3 => Line::Val(rng.below(20) as i64),
+        0 => {
+            if rng.chance(2, 3) {
+                Line::OtherFile(rng.pick(OTHER_FILES).to_string())
+            } else {
+                Line::OtherDir(rng.pick(&["", "d", "d.e", "q"]).to_string())
+            }
+        }
+        1..=3 => Line::Val(rng.below(20) as i64),
         4..=10 => {
             // loads only go to nodes with a higher index (no load cycles)
             let t = gen_ty(rng);
